@@ -160,11 +160,13 @@ type GenOpts struct {
 	WhereForms []string `json:"where_forms"` // pk | in | between | and | or | paren | nonpk
 	Params     bool     `json:"params"`      // bound parameters (else literals only)
 	OrderLimit bool     `json:"order_limit"`
+	// ShuffleCols: INSERT column lists in random order (key not first)
+	ShuffleCols bool `json:"shuffle_cols"`
 	// MultiUpsert: multi-row INSERT ... ON DUPLICATE KEY UPDATE (known-finding trigger, off in most runs)
 	MultiUpsert bool `json:"multi_upsert"`
 }
 
-var allTypes = []string{"int", "bigint", "varchar", "decimal", "double", "float", "datetime", "datetime3", "text", "blob", "tinyint", "date"}
+var allTypes = []string{"int", "bigint", "varchar", "decimal", "double", "float", "datetime", "datetime3", "text", "blob", "tinyint", "date", "mediumtext", "longtext", "char", "smallint", "varbinary"}
 
 func pickSome[T any](g *simkit.Gen, xs []T, min int) []T {
 	var out []T
@@ -198,12 +200,14 @@ func genValFor(g *simkit.Gen, c ColDef, o GenOpts) Val {
 		return VI(int64(g.Range(1, 500)))
 	case "tinyint":
 		return VI(int64(g.Range(-128, 127)))
+	case "smallint":
+		return VI(int64(g.Range(-32768, 32767)))
 	case "bigint":
 		if o.Trouble && g.Prob(0.4) {
 			return VI(simkit.Pick(g, []int64{9007199254740993, 9223372036854775807, -9223372036854775808, 0}))
 		}
 		return VI(int64(g.Range(1, 100000)))
-	case "varchar", "text":
+	case "varchar", "text", "mediumtext", "longtext", "char":
 		if o.Trouble && g.Prob(0.5) {
 			return VS(simkit.Pick(g, strTrouble))
 		}
@@ -228,7 +232,7 @@ func genValFor(g *simkit.Gen, c ColDef, o GenOpts) Val {
 		return VT(t)
 	case "date":
 		return VT(time.Date(2020+g.Intn(5), time.Month(1+g.Intn(12)), 1+g.Intn(28), 0, 0, 0, 0, time.UTC))
-	case "blob":
+	case "blob", "varbinary":
 		if g.Prob(0.2) {
 			return VB([]byte{})
 		}
@@ -250,6 +254,10 @@ func colType(t string) string {
 		return "decimal(10,2)"
 	case "datetime3":
 		return "datetime(3)"
+	case "char":
+		return "char(32)"
+	case "varbinary":
+		return "varbinary(32)"
 	}
 	return t
 }
@@ -491,6 +499,12 @@ func (s *stmtGen) gen() ATStmt {
 			names = nil
 			for _, c := range t.Cols {
 				names = append(names, c.Name)
+			}
+		}
+		if s.o.ShuffleCols && len(names) > 1 {
+			for i := len(names) - 1; i > 0; i-- {
+				j := s.g.Intn(i + 1)
+				names[i], names[j] = names[j], names[i]
 			}
 		}
 		var lists []string
